@@ -31,7 +31,9 @@ class KeyCalc(object):
     def __call__(self, row, row_number):
         values = {**row, '#': row_number}
         if self.key_spec is None:
-            return ':'.join(str(values[key]) for key in self.key_list)
+            # the parts are joined with ':' - a ':' (or the escape character) inside a part is escaped,
+            # so that different tuples of parts never render to the same key
+            return ':'.join(str(values[key]).replace('\\', '\\\\').replace(':', '\\:') for key in self.key_list)
         return self.key_spec.format(**values)
 
 
